@@ -61,6 +61,11 @@ add("C18", "Hypothesis-generated printable expressions + a pool of real derivati
     "Generated-input search: every printable object kind incl. operators, NO groups, spins, numbered names, fractions with bracket powers, sqrt/rational prefactors under generated assumptions; plus 26 library outputs x 4 post-processings per run.",
     "Trusted: F_p evaluator (operators as position-tagged tensors). The atheris campaign planned in DESIGN.md was not built (see DESIGN.md section 5).")
 
+add("C01", "Hypothesis-generated operator products; oracle: Fermi-vacuum expectation value by bit-string (determinant) algebra with literal normal ordering, contracted with tensor values in F_p",
+    "Generated-input search: 2-8 operators on occ/virt/general indices, NO groups, coefficient tensors wired to operator indices, rule sets; for every orbital assignment of the operator indices the vacuum expectation value "
+    "is computed without Wick's theorem and compared with the evaluated wicks() result with and without delta evaluation on 4-5 model sizes; rules checked structurally against an independent block computation.",
+    "Trusted: fock.py (anticommutation relations self-tested at every run), F_p evaluator. Strings with more than 6 distinct operator labels are not generated.")
+
 NOT_YET = "check not built yet in this round (planned, see DESIGN.md)"
 
 def main():
